@@ -1225,7 +1225,12 @@ func (c *Compiler) writeCopy(node *node, l, r string, depth int) error {
 			}
 			c.wl(lb, "=append(", lb, ",", pfx, nb, ")")
 			c.wl("}")
-			c.wl(l, "=", c.fmtP(node, lb, depth))
+			if depth == 0 {
+				// The root is reached through a pointer: store the grown slice into the destination itself.
+				c.wl("*", l, "=", lb)
+			} else {
+				c.wl(l, "=", c.fmtP(node, lb, depth))
+			}
 			c.wl("}")
 		}
 	case typeBasic:
